@@ -78,9 +78,9 @@ def run_case(seed, tier, b, acc):
     d = b.workdir()
     ok, err, so = b.compile(d, {'m.cpp': out}, cxxlib.generate(mod))
     if not ok:
-        acc.count('module_build_failed(decided by C09)')
-        acc.notes.append('build failed for case %d: %s' % (seed, [l for l in err.split('\n') if ' error' in l][:2]))
-        return []
+        acc.count('module_build_failed')
+        return [{'what': 'generated program cannot be built against the library that declares the interface: no binding can forward',
+                 'errors': [l for l in err.split('\n') if ' error' in l][:3], 'text': text[:3000]}]
     plan_ = pyplan.build_plan(mod, top)
     json.dump(plan_, open(os.path.join(d, 'plan.json'), 'w'))
     env = dict(os.environ)
